@@ -104,15 +104,21 @@ extern "C" void h_c20_history(unsigned long k) {
     }
 }
 // one inbound handshake with symbolic difficulty: accepted exactly when the key is valid and the lifted PoW predicate holds
-extern "C" void h_c20_pow_gate(unsigned long) {
+extern "C" void h_c20_pow_gate(unsigned long k) {
     PartialNode pn; Node* n = pn.node();
     const std::uint8_t difficulty = nondet_u8("difficulty"); verif_assume(difficulty <= 24);
     n->config_.handshake_pow_difficulty = difficulty;
+    const std::uint8_t cooldown = nondet_u8("cooldown_s") & 15; n->config_.handshake_cooldown = std::chrono::seconds(cooldown);
     verif_env::start_clock();
-    const std::uint32_t pub = nondet_u32("offered_public"); const std::uint64_t nonce = nondet_u64("nonce");
-    const bool accepted = n->perform_handshake(remote_id(), pub, nonce);
-    const bool pow_ok = handshake_pow_valid(remote_id(), n->id_, pub, nonce, difficulty);
-    verif_assert(accepted == (key_ok(pub) && pow_ok), "C20: accepted exactly when the key is valid and the PoW nonce is valid for (claimed peer, this node, offered key)");
-    if (accepted) { verif_assert(g_registered_keys == 1 && g_last_registered_peer == remote_id(), "C20: acceptance registers one session key for the claimed peer"); verif_reach("accepted"); }
-    else { verif_assert(g_registered_keys == 0, "C20: rejection registers nothing"); verif_reach("rejected"); }
+    if (k == 0) k = 1;
+    for (unsigned long i = 0; i < k; ++i) {
+        if (i) verif_env::advance_clock();
+        const std::uint32_t pub = nondet_u32("offered_public"); const std::uint64_t nonce = nondet_u64("nonce");
+        const unsigned regs_before = g_registered_keys;
+        const bool accepted = n->perform_handshake(remote_id(), pub, nonce);
+        const bool pow_ok = handshake_pow_valid(remote_id(), n->id_, pub, nonce, difficulty);
+        verif_assert(accepted == (key_ok(pub) && pow_ok), "C20: accepted exactly when the key is valid and the PoW nonce is valid for (claimed peer, this node, offered key) - for every handshake of a history, inside or outside the cooldown");
+        if (accepted) { verif_assert(g_registered_keys == regs_before + 1 && g_last_registered_peer == remote_id(), "C20: acceptance registers one session key for the claimed peer"); verif_reach("accepted"); }
+        else { verif_assert(g_registered_keys == regs_before, "C20: rejection registers nothing"); verif_reach("rejected"); }
+    }
 }
